@@ -24,6 +24,7 @@ var verifHarnesses = map[string]func(){
 	"VerifC05Errors":       VerifC05Errors,
 	"VerifC05SplitErrors":  VerifC05SplitErrors,
 	"VerifC05Split":        VerifC05Split,
+	"VerifC07Limits":       VerifC07Limits,
 	"VerifC07Step":         VerifC07Step,
 	"VerifC07Compile":      VerifC07Compile,
 }
